@@ -991,7 +991,8 @@ fn assignable_dot<'t>(ctx: Context<'t>, accessed: Assignable) -> ParseResult<'t,
     };
 
     let access = Assignable {
-        span: ctx.span(),
+        // The accessed name, not whatever token follows it (which may be lines away).
+        span: ident.span,
         kind: Access(Box::new(accessed), ident),
     };
     sub_assignable(ctx, access)
